@@ -16,14 +16,16 @@ MCRspData == {<<7, 7, 1, 2>>, <<8, 0, 0, 8>>}
 
 SInit == Init /\ act = [a |-> "Init"]
 SNext ==
-  \/ SendLookup(NextTr) /\ act' = [a |-> "Await", e |-> "TrSend"]
-  \/ (Accept \/ \E i \in 1..Len(trans) : Coalesce(i)) /\ act' = [a |-> "Await", e |-> "Accept"]
+  \* as the code does it: join the pending lookup of the page and process if there is one, else ask
+  \/ /\ SendLookup(NextTr) /\ ~\E i \in 1..Len(trans) : Matches(trans[i], Head(topIn)) /\ ~trans[i].done
+     /\ act' = [a |-> "Await", e |-> "TrSend"]
+  \/ (Accept \/ \E i \in 1..Len(trans) : ~trans[i].done /\ Coalesce(i)) /\ act' = [a |-> "Await", e |-> "Accept"]
   \/ (\E i \in 1..Len(trans) : Mark(i)) /\ act' = [a |-> "Tick", n |-> 1]
   \/ (\E i \in 1..Len(trans) : \E j \in 1..Len(trans[i].reqs) : Forward(i, j, NextBot)) /\ act' = [a |-> "Await", e |-> "Forward"]
   \/ TakeLookupRsp /\ act' = [a |-> "Await", e |-> "TrTake"]
   \/ (\E b \in usedBot : RspUp(b)) /\ act' = [a |-> "Await", e |-> "RspUp"]
   \/ BotTake /\ act' = [a |-> "Await", e |-> "BotTake"]
-  \/ (Discard \/ Restart) /\ act' = [a |-> "Await", e |-> "CtrlTake"]
+  \/ (Discard \/ Restart) /\ ctrlOut = 0 /\ act' = [a |-> "Await", e |-> "CtrlTake"]   \* the Control port holds one message
   \/ (NextTop <= MaxReq /\ \E r \in Reqs : EnvReq(NextTop, r.src, r.p) /\ act' = [a |-> "EnvReq", src |-> r.src, p |-> r.p])
   \/ EnvTakeLookup /\ act' = [a |-> "EnvTakeLookup"]
   \/ EnvTakeDown /\ act' = [a |-> "EnvTakeDown"]
